@@ -5,7 +5,7 @@ CONSTANTS
   Vals = {"va", "vb"}
   HistDepth = 40
   MaxIds = 30
-  Ops = {"begin", "foreign", "set", "del", "destroy", "regenerate", "reset", "save", "reget", "getbyid", "storedelete", "freeticks"}
+  Ops = {"begin", "foreign", "set", "del", "destroy", "regenerate", "reset", "save", "reget", "getbyid", "storedelete", "freeticks", "byidsave"}
   Modes = {"middleware", "store"}
 INVARIANT EmitHist
 INVARIANT NeverAdoptForeignId
